@@ -34,7 +34,7 @@ ASSUMPTIONS = ["Floyd-Warshall over the permitted arcs (stdlib floats; all weigh
                "prepared_shortest_distance may answer a pair outside the table with the documented 1e300"]
 EXHAUSTIVE = {"quick": "all 4 161 multigraphs with <= 3 nodes and <= 2 edges over weights {0,1,2} x 3 orientations, all ordered pairs, "
                        "all cut-offs equal to and midway between the exact distances",
-              "thorough": "all 104 626 multigraphs with <= 3 nodes and <= 3 edges over weights {0,1,2} x 3 orientations, all ordered "
+              "thorough": "all 104 643 multigraphs with <= 3 nodes and <= 3 edges over weights {0,1,2} x 3 orientations, all ordered "
                           "pairs, all cut-offs equal to and midway between the exact distances"}
 CASE_LIMIT_S = 20.0
 
